@@ -119,7 +119,8 @@ def lib_eval(w):
     from gtirb_rewriting.dwarf.cfi_eval import evaluate_cfi_directives
 
     try:
-        for _ in evaluate_cfi_directives(w.m, [b for b in w.m.code_blocks]):
+        # "sequential" blocks: a kept zero-sized block comes before the block that starts at the same address
+        for _ in evaluate_cfi_directives(w.m, sorted(w.m.code_blocks, key=lambda b: (b.address, b.size))):
             pass
     except Exception as e:
         return type(e).__name__ + ": " + str(e)[:80]
